@@ -207,10 +207,29 @@ func cmdCodec(args []string) {
 			end := min(off+chunk, len(ps))
 			var ins, encs, decs [][]byte
 			for _, p := range ps[off:end] {
-				e := t.enc(p)
+				var e []byte
+				var d uint64
+				if msg := guard(func() { e = t.enc(p); d = t.dec(e) }); msg != "" {
+					// an encoder / decoder that faults on a value of its type: logged as a record of its own
+					tr := trs[bi%len(trs)]
+					tr.start("panic")
+					tr.fStr("ty", t.ty)
+					tr.fInt("w", t.w)
+					tr.fBytes("in", be(p, t.w))
+					tr.fStr("msg", msg)
+					tr.emit()
+					continue
+				}
 				ins = append(ins, be(p, t.w))
 				encs = append(encs, cloneB(e))
-				decs = append(decs, be(t.dec(e), t.w))
+				decs = append(decs, be(d, t.w))
+			}
+			if len(ins) == 0 {
+				bi++
+				if end == len(ps) {
+					break
+				}
+				continue
 			}
 			writeBatch(trs[bi%len(trs)], t.ty, t.w, "", ins, encs, decs)
 			bi++
@@ -248,8 +267,11 @@ func cmdCodec(args []string) {
 		}
 		var ins, encs, decs [][]byte
 		for _, t := range ts {
-			e, _ := codec.Transform(t)
-			d := codec.Restore(e)
+			var e []byte
+			var d Tuple
+			if msg := guard(func() { e, _ = codec.Transform(t); d = codec.Restore(e) }); msg != "" {
+				continue // a fault of a field codec is reported by that field type's own batch
+			}
 			ins = append(ins, tupleBits(sc, t))
 			encs = append(encs, cloneB(e))
 			decs = append(decs, tupleBits(sc, d))
@@ -323,8 +345,32 @@ func cmdCodecRerun(args []string) {
 			Items []struct {
 				In []int `json:"in"`
 			} `json:"items"`
+			In []int `json:"in"`
 		}
 		if json.Unmarshal(ln, &e) != nil {
+			continue
+		}
+		if e.Op == "panic" {
+			// re-encode the value that faulted
+			inb := make([]byte, len(e.In))
+			for j, x := range e.In {
+				inb[j] = byte(x)
+			}
+			msg := guard(func() {
+				for _, t := range types {
+					if t.ty == e.Ty && t.w == e.W {
+						t.dec(t.enc(pattern(inb, e.W)))
+					}
+				}
+			})
+			if msg != "" {
+				tr.start("panic")
+				tr.fStr("ty", e.Ty)
+				tr.fInt("w", e.W)
+				tr.fBytes("in", inb)
+				tr.fStr("msg", msg)
+				tr.emit()
+			}
 			continue
 		}
 		pick := func(ty string, w int) codecType {
